@@ -102,6 +102,7 @@ Print Assumptions C07_derived_nonvacuous.
    results of the operations addressed to table k are those of table k run
    alone - nothing another table did with the same selector text matters. *)
 Theorem C07_tables_independent : forall (split : N -> N -> N * option Z * Z) steps tabs k s,
+  forallb (fun st => negb (is_cross (snd st))) steps = true ->     (* no t[index] = u[index] steps; those copy VALUES, see model/TableMulti.v *)
   nth_error tabs k = Some s ->
   results_of k steps (mrun_tabs split tabs steps) = srun split s (ops_of k steps).
 Proof. exact tables_independent. Qed.
@@ -119,6 +120,19 @@ Example C07_multi_nonvacuous :
   = [RPos 1; RPos 2; RPos 0; RUnit; RErr KeyError].
 Proof. vm_compute. reflexivity. Qed.
 Print Assumptions C07_multi_nonvacuous.
+
+(* t2[index] = t1[index] copies the values: a later rename through t1 does not
+   reach t2, whose lookups keep resolving against its own column *)
+Example C07_cross_nonvacuous :
+  let split := fun seps raw : N => (raw, @None Z, 0) in
+  let T1 := mkStab 0%N (mkTable [5; 6; 5]%N [] None) in
+  let T2 := mkStab 0%N (mkTable [7; 7; 7]%N [] None) in
+  mrun_tabs split [T1; T2] [(1%nat, MSetIdxFrom 0%nat); (1%nat, MOp (OGetIndex (RTup2 5%N 1)));
+                            (0%nat, MOp (OSetCellN (RInt 2) 9%N)); (1%nat, MOp (OGetIndex (RTup2 5%N 1)));
+                            (0%nat, MOp (OGetIndex (RTup2 5%N 1)))]
+  = [RUnit; RPos 2; RUnit; RPos 2; RErr KeyError].
+Proof. vm_compute. reflexivity. Qed.
+Print Assumptions C07_cross_nonvacuous.
 
 (* re-pointing the index: look up, t._index = 'alt' (column 8 holds the names
    2,2,3 as integers), look up on the new index column, point back, look up *)
